@@ -12,6 +12,18 @@
 #include <float.h>
 #include <math.h>
 
+/* floating-point type of the encoding: binary64, or (FSV_FP_REDUCED, cbmc only) an IEEE-style format with an
+   11-bit significand in a 64-bit container; inputs are then restricted to binary64's finite range */
+#if defined(__CPROVER__) && defined(FSV_FP_REDUCED)
+typedef __CPROVER_floatbv[64][10] fsv_f64;
+fsv_f64 nondet_fsv_f64(void);
+#define FSV_NONDET_F64() nondet_fsv_f64()
+#define FSV_F64_RANGE(x) __CPROVER_assume((x) != (x) || (x) == (fsv_f64)0.0 || ((x) >= (fsv_f64)0x1p-1074 && (x) <= (fsv_f64)0x1p+1023) || ((x) <= -(fsv_f64)0x1p-1074 && (x) >= -(fsv_f64)0x1p+1023))
+#else
+typedef double fsv_f64;
+#define FSV_NONDET_F64() nondet_double()
+#define FSV_F64_RANGE(x) ((void)0)
+#endif
 #ifdef __CPROVER__
 double nondet_double(void);
 uint64_t nondet_u64(void);
@@ -24,14 +36,14 @@ int nondet_int(void);
 #else
 #define FSV_ASSERT(c, msg) __CPROVER_assert((c), "FSV: " msg)
 #endif
-#define FSV_IN_F64(a, n) do { for (int i_ = 0; i_ < (int)(n); i_++) (a)[i_] = nondet_double(); } while (0)
+#define FSV_IN_F64(a, n) do { for (int i_ = 0; i_ < (int)(n); i_++) { (a)[i_] = FSV_NONDET_F64(); FSV_F64_RANGE((a)[i_]); } } while (0)
 #define FSV_IN_U64(a, n, lo, hi) do { for (int i_ = 0; i_ < (int)(n); i_++) { (a)[i_] = nondet_u64(); __CPROVER_assume((a)[i_] >= (uint64_t)(lo) && (a)[i_] <= (uint64_t)(hi)); } } while (0)
 #define FSV_IN_U8(a, n, lo, hi) do { for (int i_ = 0; i_ < (int)(n); i_++) { (a)[i_] = nondet_u8(); __CPROVER_assume((a)[i_] >= (lo) && (a)[i_] <= (hi)); } } while (0)
 #define FSV_OBS_U64(x) ((void)0)
 #define FSV_OBS_F64(x) ((void)0)
-#define FSV_ISNAN(x) __CPROVER_isnand(x)
-#define FSV_ISINF(x) __CPROVER_isinfd(x)
-#define FSV_ISFINITE(x) (!__CPROVER_isnand(x) && !__CPROVER_isinfd(x))
+#define FSV_ISNAN(x) ((x) != (x))
+#define FSV_ISINF(x) ((x) == (fsv_f64)__builtin_inf() || (x) == -(fsv_f64)__builtin_inf())
+#define FSV_ISFINITE(x) (!FSV_ISNAN(x) && !FSV_ISINF(x))
 #define FSV_NOTE(...) ((void)0)
 #ifdef WITNESS
 #define FSV_END() __CPROVER_assert(0, "FSV-WITNESS: end of harness reachable")
@@ -77,7 +89,7 @@ void fsvn_thrown(void);
 
 /* pow as seen by the unit: the stub of rt_model.h under cbmc (consistent with the unit's own calls), libm natively */
 #if defined(__CPROVER__)
-double fsvx_pow(double, double);
+fsv_f64 fsvx_pow(fsv_f64, fsv_f64);
 #define FSV_POW(x, y) fsvx_pow((x), (y))
 #else
 #define FSV_POW(x, y) pow((x), (y))
